@@ -18,6 +18,7 @@ import (
 	"verifharness/internal/kvx"
 	"verifharness/internal/prng"
 
+	"github.com/acquirecloud/golibs/kvs"
 	"github.com/acquirecloud/golibs/kvs/inmem"
 )
 
@@ -26,6 +27,15 @@ type Case struct {
 	Be  string   `json:"be"` // both | inmem | redis
 	Ops []kvx.Op `json:"ops"`
 	KF  string   `json:"kf,omitempty"`
+	// Race > 0: a batch of free-running rounds on fresh in-memory stores (no Ops): a waiter is parked on a record
+	// that expires in a few milliseconds, and a PutMany of Fill filler records whose LAST record rewrites the key
+	// with an expiration one hour ahead is started Lead microseconds before that instant (so that the expiry
+	// falls into the time the batch holds the store).  Judged by the contract, by the harness: the record written
+	// last is there afterwards, with its expiration; the waiter returns nil or ErrNotExist.
+	Race int    `json:"race,omitempty"`
+	Fill int    `json:"fill,omitempty"`
+	Lead int    `json:"lead_us,omitempty"`
+	Seed uint64 `json:"seed,omitempty"`
 }
 
 const tolNs = 2000000 // 2 ms
@@ -36,7 +46,79 @@ var (
 	pats   = []string{"*", "a*", "?", "[ab]", "zz"}
 )
 
+// raceRounds: see Case.Race
+func raceRounds(c Case, s *hx.Sink) {
+	g := prng.New(c.Seed, "C06race", c.ID)
+	for round := 0; round < c.Race; round++ {
+		st := inmem.New()
+		ctx := context.Background()
+		lease := time.Duration(2+g.Intn(3)) * time.Millisecond
+		exp := time.Now().Add(lease)
+		r0, err := st.Put(ctx, kvs.Record{Key: "k", Value: []byte("old"), ExpiresAt: &exp})
+		if err != nil {
+			s.DirectViolation(c.ID, "race stream: Put failed", err.Error())
+			return
+		}
+		nw := 1 + g.Intn(2)
+		done := make(chan error, nw)
+		for i := 0; i < nw; i++ {
+			go func() {
+				wctx, cancel := context.WithTimeout(ctx, 2*time.Second)
+				defer cancel()
+				done <- st.WaitForVersionChange(wctx, "k", r0.Version)
+			}()
+		}
+		for i := 0; i < 400 && inmem.VerifWaiters(st)["k"] < nw; i++ {
+			time.Sleep(20 * time.Microsecond)
+		}
+		recs := make([]kvs.Record, 0, c.Fill+1)
+		for i := 0; i < c.Fill; i++ {
+			recs = append(recs, kvs.Record{Key: fmt.Sprintf("f%d", i), Value: []byte("x")})
+		}
+		far := time.Now().Add(time.Hour)
+		recs = append(recs, kvs.Record{Key: "k", Value: []byte("new"), ExpiresAt: &far})
+		lead := time.Duration(c.Lead+g.Intn(c.Lead+1)) * time.Microsecond
+		for time.Until(exp) > lead { // spin: the batch has to start shortly before the expiration
+		}
+		if err := st.PutMany(ctx, recs); err != nil {
+			s.DirectViolation(c.ID, "race stream: PutMany failed", err.Error())
+			return
+		}
+		spanned := time.Now().After(exp)
+		if spanned {
+			s.Count("race:expiry-inside-the-batch")
+		} else {
+			s.Count("race:batch-over-before-the-expiry")
+		}
+		for i := 0; i < nw; i++ {
+			select {
+			case e := <-done:
+				if cl := kvx.Class(e); cl != "OOk" && cl != "ONotExist" {
+					s.DirectViolation(c.ID, "a waiter on a record that was rewritten / had expired returned "+cl, map[string]any{"round": round})
+				}
+			case <-time.After(3 * time.Second):
+				s.DirectViolation(c.ID, "a waiter on a record that was rewritten and whose old expiration has passed is still parked", map[string]any{"round": round})
+			}
+		}
+		time.Sleep(50 * time.Microsecond)
+		got, err := st.Get(ctx, "k")
+		switch {
+		case err != nil:
+			s.DirectViolation(c.ID, "a record whose expiration lies one hour in the future is gone: Get after PutMany returned "+kvx.Class(err),
+				map[string]any{"round": round, "fill": c.Fill, "expiry_inside_the_batch": spanned, "waiters": nw})
+			return
+		case string(got.Value) != "new" || got.Version == r0.Version || got.ExpiresAt == nil || !got.ExpiresAt.Equal(far):
+			s.DirectViolation(c.ID, "Get after PutMany does not return the record written last", map[string]any{"round": round})
+			return
+		}
+	}
+}
+
 func runCase(c Case, s *hx.Sink) string {
+	if c.Race > 0 {
+		raceRounds(c, s)
+		return fmt.Sprintf("mkCase %s %s %s []", hx.N(c.ID), inmemB.CoqBackend(), hx.Z(tolNs))
+	}
 	var terms []string
 	for _, b := range []*kvx.Backend{inmemB, redisB} {
 		if c.Be != "both" && c.Be != b.Name {
@@ -279,6 +361,9 @@ func main() {
 			for st, exp := range []string{"-1h", "1h", ""} {
 				idx++
 				r := prng.New(fl.Seed, "C06A", idx)
+				if exp == "1h" && r.Chance(1, 3) {
+					exp = prng.Pick(r, []string{"y9999", "y2400"}) // an expiration in the far future is in the future
+				}
 				var ops []kvx.Op
 				ops = append(ops, writeOp(r, "b", prng.Pick(r, []string{"-1h", "1h", ""}))...)
 				ops = append(ops, writeOp(r, "a", exp)...)
@@ -293,6 +378,18 @@ func main() {
 			}
 		}
 	}
+	// R. free-running rounds (in-memory store): the expiration of a record falls into the time a large PutMany that
+	//    rewrites it holds the store, with waiters parked on it
+	nrace := 6
+	if thorough {
+		nrace = 40
+	}
+	for i := 0; i < nrace; i++ {
+		id++
+		c := Case{ID: id, Be: "inmem", Ops: []kvx.Op{}, Race: 40, Fill: []int{2000, 6000, 20000}[i%3], Lead: []int{100, 300}[i%2], Seed: fl.Seed}
+		s.Add(c, runCase(c, s), true)
+		s.Count("stream:R:race")
+	}
 	// B. Redis, time moved by FastForward: leases of 1h / 3h / none, the clock advances 2h (twice in the tail)
 	for rep := 0; rep < reps; rep++ {
 		for kind := 0; kind < 9; kind++ {
@@ -302,7 +399,7 @@ func main() {
 				idx++
 				r := prng.New(fl.Seed, "C06B", idx)
 				var ops []kvx.Op
-				ops = append(ops, writeOp(r, "b", prng.Pick(r, []string{"1h", "3h", ""}))...)
+				ops = append(ops, writeOp(r, "b", prng.Pick(r, []string{"1h", "3h", "", "y9999", "y2400"}))...)
 				ops = append(ops, writeOp(r, "a", exp)...)
 				ops = append(ops, kvx.Op{K: "A", D: 2 * 3600 * 1000})
 				ops = append(ops, toucher(kind, "a", r, 5))
